@@ -176,7 +176,7 @@ Proof.
   - rewrite last_app_ne by discriminate. reflexivity.
 Qed.
 
-Lemma lastT fp T t : T = LPostfix \/ T = LNew -> wf t -> is_post (last (print_items fp T t) IOpen) = false.
+Lemma lastT fp ss T t : T = LPostfix \/ T = LNew -> wf t -> is_post (last (print_items fp ss T t) IOpen) = false.
 Proof.
   intros HT Hw. assert (HT19 : 19 <= T) by (destruct HT; subst T; unfold LPostfix, LNew; lia).
   rewrite print_items_split. destruct (wrapped fp T t) eqn:W.
@@ -195,13 +195,13 @@ Proof.
 Qed.
 
 (* leftmost item of a member/call chain whose base leads with an identifier or "(" *)
-Lemma lead_head : forall t T, T = LPostfix \/ T = LNew -> lead t = true -> simple_head (print_items false T t).
+Lemma lead_head : forall t T, T = LPostfix \/ T = LNew -> lead t = true -> simple_head (print_items false false T t).
 Proof.
   induction t as [s0| | |t0 IH0 s0|u w IHw|o2 a IHa b2 IHb|c0 IHc0 y0 IHy0 n0 IHn0|t0 IH0 i0 IHi0|f0 IHf0 a0 IHa0|f0 IHf0 a0 IHa0| |x0 IHx0 r0 IHr0];
     intros T HT Hl; try discriminate; try exact I.
   - cbn [Token.print_items]. assert (HT' : tgt_level T = LPostfix \/ tgt_level T = LNew) by (unfold tgt_level; destruct (T =? LNew); auto).
     specialize (IH0 _ HT' Hl).
-    destruct (print_items false (tgt_level T) t0) as [|x l0]; [destruct IH0|]. destruct x; try destruct IH0; exact I.
+    destruct (print_items false false (tgt_level T) t0) as [|x l0]; [destruct IH0|]. destruct x; try destruct IH0; exact I.
   - rewrite print_items_split. replace (wrapped false T (EUn u w)) with true; [exact I|].
     symmetry. apply wrapped_level; [reflexivity|]. simpl. rewrite Z.geb_leb. apply Z.leb_le. pose proof (op_level_pos u). destruct HT; subst T; unfold LPostfix, LNew; lia.
   - rewrite print_items_split. replace (wrapped false T (EBin o2 a b2)) with true; [exact I|].
@@ -209,10 +209,10 @@ Proof.
   - destruct HT; subst T; exact I.
   - cbn [Token.print_items]. assert (HT' : tgt_level T = LPostfix \/ tgt_level T = LNew) by (unfold tgt_level; destruct (T =? LNew); auto).
     specialize (IH0 _ HT' Hl).
-    destruct (print_items false (tgt_level T) t0) as [|x l0]; [destruct IH0|]. destruct x; try destruct IH0; exact I.
+    destruct (print_items false false (tgt_level T) t0) as [|x l0]; [destruct IH0|]. destruct x; try destruct IH0; exact I.
   - rewrite print_items_split. destruct (wrapped false T (ECall f0 a0)); [exact I|]. rewrite body_call.
     simpl in Hl. specialize (IHf0 LPostfix (or_introl eq_refl) Hl).
-    destruct (print_items false LPostfix f0) as [|x l0]; [destruct IHf0|]. destruct x; try destruct IHf0; exact I.
+    destruct (print_items false false LPostfix f0) as [|x l0]; [destruct IHf0|]. destruct x; try destruct IHf0; exact I.
 Qed.
 
 Lemma ender_adj x : (x = IClose \/ x = IRBrack \/ x = IQuest \/ x = IColon) -> forall z, ends_operand z = true -> adj z x = true.
@@ -221,15 +221,15 @@ Proof. intros Hx z Hz. unfold adj. rewrite Hz. destruct Hx as [E|[E|[E|E]]]; sub
 Lemma tgt_level_TT P : tgt_level P = LPostfix \/ tgt_level P = LNew.
 Proof. unfold tgt_level. destruct (P =? LNew); auto. Qed.
 
-Definition GoodE (e : expr) : Prop := forall fp P, Good (print_items fp P e) /\ Forall item_ok (print_items fp P e).
+Definition GoodE (e : expr) : Prop := forall fp ss P, Good (print_items fp ss P e) /\ Forall item_ok (print_items fp ss P e).
 Definition GoodA (a : expr) : Prop :=
-  (a = ANil \/ Good (print_items false LComma a)) /\ Forall item_ok (print_items false LComma a).
+  (a = ANil \/ Good (print_items false false LComma a)) /\ Forall item_ok (print_items false false LComma a).
 
-Lemma paren_good fp P e : (forall fb, Good (body fb P e) /\ Forall item_ok (body fb P e)) ->
-  Good (print_items fp P e) /\ Forall item_ok (print_items fp P e).
+Lemma paren_good fp ss P e : (forall fb sb, Good (body fb sb P e) /\ Forall item_ok (body fb sb P e)) ->
+  Good (print_items fp ss P e) /\ Forall item_ok (print_items fp ss P e).
 Proof.
   intros HB. rewrite print_items_split. destruct (wrapped fp P e).
-  - destruct (HB false) as [GB FB]. split; [apply G_paren; exact GB|]. apply Forall_app. split; [constructor; [exact I | constructor]|].
+  - destruct (HB false false) as [GB FB]. split; [apply G_paren; exact GB|]. apply Forall_app. split; [constructor; [exact I | constructor]|].
     apply Forall_app. split; [exact FB | constructor; [exact I | constructor]].
   - apply HB.
 Qed.
@@ -238,55 +238,64 @@ Theorem print_items_good_both : forall e, (wf e -> lexok e -> GoodE e) /\ (wfa e
 Proof.
   induction e as [s|s|b f|t IHt s|o v IHv|o l IHl r IHr|c IHc y IHy n IHn|t IHt i IHi|f IHf a IHa|f IHf a IHa| |x IHx r IHr];
     (split; [intros Hwf Hlx; try (destruct Hwf; fail) | intros Hwa Hlx; try (destruct Hwa; fail)]).
-  - intros fp P. split; [apply G_atom; reflexivity | constructor; [exact Hwf | constructor]].
-  - intros fp P. split; [apply G_atom; reflexivity | constructor; [exact Hwf | constructor]].
-  - intros fp P. split; [apply G_atom; reflexivity | constructor; [exact Hwf | constructor]].
-  - intros fp P. destruct Hwf as (Hwt & Hs1 & Hs2). simpl in Hlx. destruct (proj1 IHt Hwt Hlx false (tgt_level P)) as [Gt Ft].
+  - intros fp ss P. split; [apply G_atom; reflexivity | constructor; [exact Hwf | constructor]].
+  - intros fp ss P. split; [apply G_atom; reflexivity | constructor; [exact Hwf | constructor]].
+  - intros fp ss P. split; [apply G_atom; reflexivity | constructor; [exact Hwf | constructor]].
+  - intros fp ss P. destruct Hwf as (Hwt & Hs1 & Hs2). simpl in Hlx. destruct (proj1 IHt Hwt Hlx false ss (tgt_level P)) as [Gt Ft].
     cbn [Token.print_items]. split.
     + apply G_dot; [exact Gt | apply lastT; [apply tgt_level_TT | exact Hwt]].
     + apply Forall_app. split; [exact Ft | constructor; [split; assumption | constructor]].
-  - intros fp P. apply paren_good. intro fb. destruct Hwf as (Hwv & Hku & Hupd). destruct Hlx as (Hlv & Hlead).
+  - intros fp ss P. apply paren_good. intros fb sb. destruct Hwf as (Hwv & Hku & Hupd). destruct Hlx as (Hlv & Hlead).
     rewrite body_un. destruct (op_kind o) eqn:Ek.
-    + destruct (proj1 IHv Hwv Hlv false (LPrefix - 1)) as [Gv Fv]. split; [|constructor; [exact I | exact Fv]].
+    + destruct (proj1 IHv Hwv Hlv false false (LPrefix - 1)) as [Gv Fv]. split; [|constructor; [exact I | exact Fv]].
       apply G_pre; [exact Gv | exact Ek|]. intro Hu.
       assert (Hio : is_update o = true) by (destruct o; try discriminate; reflexivity).
       specialize (Hupd Hio). specialize (Hlead Hu).
       destruct v as [s| | |t s| | | |t i| | | |]; try discriminate; [exact I| |]; cbn [Token.print_items]; simpl in Hlead;
         pose proof (lead_head t (tgt_level (LPrefix - 1)) (tgt_level_TT _) Hlead) as H;
-        (destruct (print_items false (tgt_level (LPrefix - 1)) t) as [|x l0]; [destruct H|]); destruct x; try destruct H; exact I.
-    + destruct (proj1 IHv Hwv Hlv false (LPostfix - 1)) as [Gv Fv]. split; [|apply Forall_app; split; [exact Fv | constructor; [exact I | constructor]]].
+        (destruct (print_items false false (tgt_level (LPrefix - 1)) t) as [|x l0]; [destruct H|]); destruct x; try destruct H; exact I.
+    + destruct (proj1 IHv Hwv Hlv false sb (LPostfix - 1)) as [Gv Fv]. split; [|apply Forall_app; split; [exact Fv | constructor; [exact I | constructor]]].
       apply G_post; [exact Gv | exact Ek|].
       assert (Hio : is_update o = true) by (destruct o; try discriminate; reflexivity).
       specialize (Hupd Hio). destruct v; try discriminate; [exact I| |]; cbn [Token.print_items].
       * rewrite last_app_ne by discriminate. exact I.
       * rewrite !app_assoc, last_app_ne by discriminate. exact I.
     + congruence.
-  - intros fp P. apply paren_good. intro fb. destruct Hwf as (Hwl & Hwr & Hk & Hta). destruct Hlx as (Hll & Hlr).
-    rewrite body_bin. destruct (proj1 IHl Hwl Hll fb (left_lvl o l)) as [Gl Fl]. destruct (proj1 IHr Hwr Hlr fb (right_lvl o r)) as [Gr Fr].
+  - intros fp ss P. apply paren_good. intros fb sb. destruct Hwf as (Hwl & Hwr & Hk & Hta). destruct Hlx as (Hll & Hlr).
+    rewrite body_bin. destruct (proj1 IHl Hwl Hll fb sb (left_lvl o l)) as [Gl Fl]. destruct (proj1 IHr Hwr Hlr fb false (right_lvl o r)) as [Gr Fr].
     split; [apply G_bin; assumption|]. apply Forall_app. split; [exact Fl|]. apply Forall_app. split; [constructor; [exact I | constructor] | exact Fr].
   - (* conditional *)
-    intros fp P. apply paren_good. intro fb. destruct Hwf as (Hwc & Hwy & Hwn). destruct Hlx as (Hlc & Hly & Hln).
-    rewrite body_cond. destruct (proj1 IHc Hwc Hlc fb LConditional) as [Gc Fc]. destruct (proj1 IHy Hwy Hly false LYield) as [Gy Fy]. destruct (proj1 IHn Hwn Hln fb LYield) as [Gn Fn].
+    intros fp ss P. apply paren_good. intros fb sb. destruct Hwf as (Hwc & Hwy & Hwn). destruct Hlx as (Hlc & Hly & Hln).
+    rewrite body_cond. destruct (proj1 IHc Hwc Hlc fb sb LConditional) as [Gc Fc]. destruct (proj1 IHy Hwy Hly false false LYield) as [Gy Fy]. destruct (proj1 IHn Hwn Hln fb false LYield) as [Gn Fn].
     split.
     + apply G_infix; [exact Gc | | reflexivity | reflexivity | apply ender_adj; [auto | apply good_last_ends; exact Gc]].
       apply G_infix; [exact Gy | exact Gn | reflexivity | reflexivity | apply ender_adj; [auto | apply good_last_ends; exact Gy]].
     + apply Forall_app. split; [exact Fc|]. apply Forall_app. split; [constructor; [exact I | constructor]|].
       apply Forall_app. split; [exact Fy|]. apply Forall_app. split; [constructor; [exact I | constructor] | exact Fn].
   - (* index access *)
-    intros fp P. destruct Hwf as (Hwt & Hwi). destruct Hlx as (Hlt & Hli).
-    destruct (proj1 IHt Hwt Hlt false (tgt_level P)) as [Gt Ft]. destruct (proj1 IHi Hwi Hli false LLowest) as [Gi Fi].
-    cbn [Token.print_items]. split.
-    + replace (print_items false (tgt_level P) t ++ [ILBrack] ++ print_items false LLowest i ++ [IRBrack])
-        with (print_items false (tgt_level P) t ++ [ILBrack] ++ (print_items false LLowest i ++ [IRBrack])) by reflexivity.
-      apply G_infix; [exact Gt | | reflexivity | reflexivity |].
+    intros fp ss P. destruct Hwf as (Hwt & Hwi). destruct Hlx as (Hlt & Hli).
+    destruct (proj1 IHt Hwt Hlt false ss (tgt_level P)) as [Gt Ft]. destruct (proj1 IHi Hwi Hli false false LLowest) as [Gi Fi].
+    cbn [Token.print_items].
+    assert (GP : Good (paren (ss && is_let t) (print_items false ss (tgt_level P) t))
+                 /\ Forall item_ok (paren (ss && is_let t) (print_items false ss (tgt_level P) t))
+                 /\ is_post (last (paren (ss && is_let t) (print_items false ss (tgt_level P) t)) IOpen) = false).
+    { unfold paren. destruct (ss && is_let t).
+      - split; [apply G_paren; exact Gt|]. split.
+        + apply Forall_app. split; [constructor; [exact I | constructor]|]. apply Forall_app. split; [exact Ft | constructor; [exact I | constructor]].
+        + rewrite app_assoc, last_app_ne by discriminate. reflexivity.
+      - split; [exact Gt|]. split; [exact Ft|]. apply lastT; [apply tgt_level_TT | exact Hwt]. }
+    destruct GP as (GP & FP & LP). set (tp := paren (ss && is_let t) (print_items false ss (tgt_level P) t)) in *. split.
+    + replace (tp ++ [ILBrack] ++ print_items false false LLowest i ++ [IRBrack])
+        with (tp ++ [ILBrack] ++ (print_items false false LLowest i ++ [IRBrack])) by reflexivity.
+      apply G_infix; [exact GP | | reflexivity | reflexivity |].
       * apply G_closer; [exact Gi | reflexivity | apply ender_adj; auto].
-      * unfold adj. rewrite (good_last_ends _ Gt), (lastT false _ t (tgt_level_TT P) Hwt). reflexivity.
-    + apply Forall_app. split; [exact Ft|]. apply Forall_app. split; [constructor; [exact I | constructor]|].
+      * unfold adj. rewrite (good_last_ends _ GP), LP. reflexivity.
+    + apply Forall_app. split; [exact FP|]. apply Forall_app. split; [constructor; [exact I | constructor]|].
       apply Forall_app. split; [exact Fi | constructor; [exact I | constructor]].
   - (* call *)
-    intros fp P. apply paren_good. intro fb. destruct Hwf as (Hwf' & Hwa). destruct Hlx as (Hlf & Hla).
-    rewrite body_call. destruct (proj1 IHf Hwf' Hlf false LPostfix) as [Gf Ff]. destruct (proj2 IHa Hwa Hla) as [Ga Fa].
-    assert (Hlast : is_post (last (print_items false LPostfix f) IOpen) = false) by (apply lastT; [left; reflexivity | exact Hwf']).
+    intros fp ss P. apply paren_good. intros fb sb. destruct Hwf as (Hwf' & Hwa). destruct Hlx as (Hlf & Hla).
+    rewrite body_call. destruct (proj1 IHf Hwf' Hlf false sb LPostfix) as [Gf Ff]. destruct (proj2 IHa Hwa Hla) as [Ga Fa].
+    assert (Hlast : is_post (last (print_items false sb LPostfix f) IOpen) = false) by (apply lastT; [left; reflexivity | exact Hwf']).
     split.
     + destruct Ga as [Ea|Ga].
       * subst a. simpl. apply G_call0; assumption.
@@ -296,18 +305,18 @@ Proof.
     + apply Forall_app. split; [exact Ff|]. apply Forall_app. split; [constructor; [exact I | constructor]|].
       apply Forall_app. split; [exact Fa | constructor; [exact I | constructor]].
   - (* new *)
-    intros fp P. apply paren_good. intro fb. destruct Hwf as (Hwf' & Hwa). destruct Hlx as (Hlf & Hla).
-    unfold PrintParse.body. destruct (proj1 IHf Hwf' Hlf false LNew) as [Gf Ff]. destruct (proj2 IHa Hwa Hla) as [Ga Fa].
-    assert (Hlast : is_post (last (print_items false LNew f) IOpen) = false) by (apply lastT; [right; reflexivity | exact Hwf']).
-    assert (GN : Good (INew :: print_items false LNew f)) by (apply G_new; exact Gf).
-    assert (HlastN : last (INew :: print_items false LNew f) IOpen = last (print_items false LNew f) IOpen).
+    intros fp ss P. apply paren_good. intros fb sb. destruct Hwf as (Hwf' & Hwa). destruct Hlx as (Hlf & Hla).
+    unfold PrintParse.body. destruct (proj1 IHf Hwf' Hlf false false LNew) as [Gf Ff]. destruct (proj2 IHa Hwa Hla) as [Ga Fa].
+    assert (Hlast : is_post (last (print_items false false LNew f) IOpen) = false) by (apply lastT; [right; reflexivity | exact Hwf']).
+    assert (GN : Good (INew :: print_items false false LNew f)) by (apply G_new; exact Gf).
+    assert (HlastN : last (INew :: print_items false false LNew f) IOpen = last (print_items false false LNew f) IOpen).
     { apply last_cons_default. apply good_nonempty. exact Gf. }
     destruct (new_parens mw P a).
     + split.
-      * change ([INew] ++ print_items false LNew f ++ [ICallOpen] ++ print_items false LComma a ++ [IClose])
-          with ((INew :: print_items false LNew f) ++ [ICallOpen] ++ (print_items false LComma a ++ [IClose])).
+      * change ([INew] ++ print_items false false LNew f ++ [ICallOpen] ++ print_items false false LComma a ++ [IClose])
+          with ((INew :: print_items false false LNew f) ++ [ICallOpen] ++ (print_items false false LComma a ++ [IClose])).
         destruct Ga as [Ea|Ga].
-        -- subst a. apply (G_call0 (INew :: print_items false LNew f)); [exact GN | rewrite HlastN; exact Hlast].
+        -- subst a. apply (G_call0 (INew :: print_items false false LNew f)); [exact GN | rewrite HlastN; exact Hlast].
         -- apply G_infix; [exact GN | | reflexivity | reflexivity |].
            ++ apply G_closer; [exact Ga | reflexivity | apply ender_adj; auto].
            ++ unfold adj. rewrite (good_last_ends _ GN), HlastN, Hlast. reflexivity.
@@ -318,10 +327,10 @@ Proof.
     split; [left; reflexivity | constructor].
   - (* argument list *)
     destruct Hwa as (Hwx & Hwr). destruct Hlx as (Hlx1 & Hlr).
-    destruct (proj1 IHx Hwx Hlx1 false LComma) as [Gx Fx]. destruct (proj2 IHr Hwr Hlr) as [Gr Fr].
+    destruct (proj1 IHx Hwx Hlx1 false false LComma) as [Gx Fx]. destruct (proj2 IHr Hwr Hlr) as [Gr Fr].
     unfold GoodA in *.
     destruct r as [| | | | | | | | | | |x2 r2]; try (destruct Hwr; fail);
-      change (print_items false LComma (ACons x ?r)) with (print_items false LComma x ++ match r with ACons _ _ => [IOp BComma] ++ print_items false LComma r | _ => [] end);
+      change (print_items false false LComma (ACons x ?r)) with (print_items false false LComma x ++ match r with ACons _ _ => [IOp BComma] ++ print_items false false LComma r | _ => [] end);
       cbv iota.
     + rewrite app_nil_r. split; [right; exact Gx | exact Fx].
     + destruct Gr as [Er|Gr]; [discriminate|]. split.
@@ -329,8 +338,8 @@ Proof.
       * apply Forall_app. split; [exact Fx|]. constructor; [exact I | exact Fr].
 Qed.
 
-Theorem print_items_good : forall e, wf e -> lexok e -> forall fp P,
-  Good (print_items fp P e) /\ Forall item_ok (print_items fp P e).
+Theorem print_items_good : forall e, wf e -> lexok e -> forall fp ss P,
+  Good (print_items fp ss P e) /\ Forall item_ok (print_items fp ss P e).
 Proof. intros e Hw Hl. apply (proj1 (print_items_good_both e) Hw Hl). Qed.
 
 Lemma good_chain l : Good l -> chain None l = true.
